@@ -116,4 +116,184 @@ void h_resize(void) { struct XST * s; size_t n = VF_IN_SIZE(n); VF_IN_SIZE(k); S
 void h_substr(void) { struct XST * s, * sub; size_t pos = VF_IN_SIZE(pos), len = VF_IN_SIZE(len); S_WIT_IN(); XSN(substr)(s, pos, len, sub); VF_END(); }
 void h_at(void) { struct XST * s; size_t pos = VF_IN_SIZE(pos); S_WIT_IN(); XSN(at)(s, pos); VF_END(); }
 void h_str(void) { struct XST * s; S_WIT_IN(); XSN(str)(s); VF_END(); }
+#else /* VF_NATIVE ------------------------------------------------------------------------
+ * Replay on the real code: a real string with `size` characters (a..z pattern) and capacity >= cap
+ * is built through the public API, the operation is run, and the result is compared character by
+ * character with a reference array given the same edit (every index, not only the ghost ones). */
+#ifdef VF_S_NARROW
+typedef char vf_ch;
+#define XST  cstl_string
+#define XSN(n) cstl_string_##n
+#else
+typedef wchar_t vf_ch;
+#define XST  cstl_wstring
+#define XSN(n) cstl_wstring_##n
+#endif
+#define VF_NMAX 4096
+int vf_try(void (*fn)(void *), void * arg);
+static struct XST vf_S, vf_T;
+static vf_ch vf_ref[2 * VF_NMAX + 2];
+static size_t vf_rn;
+static void vf_nat_string(void)
+{
+    size_t i;
+    VF_IN_SIZE(size); VF_IN_SIZE(cap);
+    VF_ASSUME(vf_w_size < VF_NMAX && vf_w_cap < VF_NMAX);
+    XSN(init)(&vf_S); XSN(init)(&vf_T);
+#ifndef VF_S_EMPTY
+    XSN(reserve)(&vf_S, vf_w_cap > vf_w_size + 1 ? vf_w_cap : vf_w_size + 1);
+    XSN(resize)(&vf_S, vf_w_size);
+    for (i = 0; i < vf_w_size; i++) { *XSN(at)(&vf_S, i) = (vf_ch)('a' + i % 26); vf_ref[i] = (vf_ch)('a' + i % 26); }
+    vf_rn = vf_w_size;
+#else
+    vf_rn = 0;
+#endif
+    vf_ref[vf_rn] = 0;
+}
+static void vf_nat_compare(struct XST * s, const char * what)
+{
+    size_t i; int same = 1;
+    const vf_ch * p = XSN(str)(s);
+    VF_NCHECK(XSN(size)(s) == vf_rn, "size equals that of the reference string after the same edit");
+    for (i = 0; i < vf_rn && i < XSN(size)(s); i++) if (p[i] != vf_ref[i]) same = 0;
+    VF_NCHECK(same, "characters equal those of the reference string after the same edit");
+    VF_NCHECK(p[XSN(size)(s)] == 0, "str points at size characters followed by a NUL");
+    (void)what;
+}
+struct vf_call { int op; size_t a, b; vf_ch c; const vf_ch * str; };
+static void vf_do(void * x)
+{
+    struct vf_call * c = x;
+    switch (c->op) {
+    case 0: XSN(erase)(&vf_S, c->a, c->b); break;
+    case 1: XSN(prep_insert)(&vf_S, c->a, c->b); break;
+    case 2: XSN(__resize)(&vf_S, c->a); break;
+    case 3: XSN(insert_str_n)(&vf_S, c->a, c->str, c->b); break;
+    case 4: XSN(insert_ch)(&vf_S, c->a, c->b, c->c); break;
+    case 5: XSN(resize)(&vf_S, c->a); break;
+    case 6: XSN(insert)(&vf_S, c->a, &vf_T); break;
+    case 7: XSN(substr)(&vf_S, c->a, c->b, &vf_T); break;
+    case 8: (void)XSN(at)(&vf_S, c->a); break;
+    }
+}
+static void vf_ref_insert(size_t pos, const vf_ch * src, size_t n, int fill, vf_ch c)
+{
+    size_t i;
+    for (i = vf_rn; i > pos; i--) vf_ref[i - 1 + n] = vf_ref[i - 1];
+    for (i = 0; i < n; i++) vf_ref[pos + i] = fill ? c : src[i];
+    vf_rn += n; vf_ref[vf_rn] = 0;
+}
+static void vf_run(int op, size_t a, size_t b, vf_ch ch, const vf_ch * str, int must_abort)
+{
+    struct vf_call c; int sig;
+    c.op = op; c.a = a; c.b = b; c.c = ch; c.str = str;
+    sig = vf_try(vf_do, &c);
+    printf("op %d (a=%zu b=%zu): signal %d\n", op, a, b, sig);
+    if (must_abort) { VF_NCHECK(sig == SIGABRT, "the call aborts as documented"); }
+    else { VF_NCHECK(sig == 0, "the call returns normally"); }
+}
+void h_erase(void)
+{
+    size_t pos = VF_IN_SIZE(pos), len = VF_IN_SIZE(len), n, i;
+    vf_nat_string();
+    if (pos >= vf_rn) { vf_run(0, pos, len, 0, NULL, 1); return; }
+    n = len > vf_rn - pos ? vf_rn - pos : len;
+    vf_run(0, pos, len, 0, NULL, 0);
+    for (i = pos; i + n < vf_rn; i++) vf_ref[i] = vf_ref[i + n];
+    vf_rn -= n; vf_ref[vf_rn] = 0;
+    vf_nat_compare(&vf_S, "erase");
+}
+void h_resize0(void)
+{
+    size_t n = VF_IN_SIZE(n), i, old;
+    vf_nat_string();
+    if (n >= VF_NMAX) { printf("NATIVE-PRECONDITION-NOT-MET: n too large to rebuild\n"); exit(3); }
+    old = vf_rn;
+    vf_run(2, n, 0, 0, NULL, 0);
+    VF_NCHECK(XSN(size)(&vf_S) == n && XSN(str)(&vf_S)[n] == 0, "__resize: exactly n characters and the terminator");
+    for (i = 0; i < n && i < old; i++) VF_NCHECK(XSN(str)(&vf_S)[i] == vf_ref[i], "__resize: the kept prefix is unchanged");
+}
+void h_resize(void)
+{
+    size_t n = VF_IN_SIZE(n), i;
+    vf_nat_string();
+    if (n >= VF_NMAX) { printf("NATIVE-PRECONDITION-NOT-MET: n too large to rebuild\n"); exit(3); }
+    vf_run(5, n, 0, 0, NULL, 0);
+    for (i = vf_rn; i < n; i++) vf_ref[i] = 0;
+    vf_rn = n; vf_ref[n] = 0;
+    vf_nat_compare(&vf_S, "resize");
+}
+void h_prep_insert(void)
+{
+    size_t pos = VF_IN_SIZE(pos), len = VF_IN_SIZE(len), i, old;
+    vf_nat_string();
+    if (len >= VF_NMAX) { printf("NATIVE-PRECONDITION-NOT-MET: len too large to rebuild\n"); exit(3); }
+    if (pos > vf_rn) { vf_run(1, pos, len, 0, NULL, 1); return; }
+    old = vf_rn;
+    vf_run(1, pos, len, 0, NULL, 0);
+    VF_NCHECK(XSN(size)(&vf_S) == old + len && XSN(str)(&vf_S)[old + len] == 0, "prep_insert: size grows by len, terminated");
+    for (i = 0; i < pos; i++) VF_NCHECK(XSN(str)(&vf_S)[i] == vf_ref[i], "prep_insert: the prefix is kept");
+    for (i = pos; i < old; i++) VF_NCHECK(XSN(str)(&vf_S)[i + len] == vf_ref[i], "prep_insert: the suffix moves up by len");
+}
+void h_insert_str_n(void)
+{
+    static vf_ch src[VF_NMAX];
+    size_t pos = VF_IN_SIZE(pos), len = VF_IN_SIZE(len), i;
+    vf_nat_string();
+    if (len >= VF_NMAX || len == 0) { printf("NATIVE-PRECONDITION-NOT-MET: len\n"); exit(3); }
+    for (i = 0; i < len; i++) src[i] = (vf_ch)(i % 3 == 1 ? 0 : 'A' + i % 26);     /* embedded NULs */
+    if (pos > vf_rn) { vf_run(3, pos, len, 0, src, 1); return; }
+    vf_run(3, pos, len, 0, src, 0);
+    vf_ref_insert(pos, src, len, 0, 0);
+    vf_nat_compare(&vf_S, "insert_str_n");
+}
+void h_insert_ch(void)
+{
+    size_t pos = VF_IN_SIZE(pos), len = VF_IN_SIZE(len);
+    vf_nat_string();
+    if (len >= VF_NMAX) { printf("NATIVE-PRECONDITION-NOT-MET: len\n"); exit(3); }
+    if (pos > vf_rn) { vf_run(4, pos, len, 'Z', NULL, 1); return; }
+    vf_run(4, pos, len, 'Z', NULL, 0);
+    vf_ref_insert(pos, NULL, len, 1, 'Z');
+    vf_nat_compare(&vf_S, "insert_ch");
+}
+void h_insert(void)
+{
+    static vf_ch src[VF_NMAX];
+    size_t pos = VF_IN_SIZE(pos), len = VF_IN_SIZE(len), i;
+    vf_nat_string();
+    if (len >= VF_NMAX || len == 0) { printf("NATIVE-PRECONDITION-NOT-MET: len\n"); exit(3); }
+    /* the other string object holds len characters, some of them NUL */
+    XSN(resize)(&vf_T, len);
+    for (i = 0; i < len; i++) { src[i] = (vf_ch)(i % 3 == 1 ? 0 : 'A' + i % 26); *XSN(at)(&vf_T, i) = src[i]; }
+    if (pos > vf_rn) { vf_run(6, pos, 0, 0, NULL, 1); return; }
+    vf_run(6, pos, 0, 0, NULL, 0);
+    vf_ref_insert(pos, src, len, 0, 0);
+    vf_nat_compare(&vf_S, "insert");
+}
+void h_substr(void)
+{
+    size_t pos = VF_IN_SIZE(pos), len = VF_IN_SIZE(len), n, i;
+    vf_nat_string();
+#ifndef VF_SUB_EMPTY
+    XSN(resize)(&vf_T, 3);
+#endif
+    if (pos >= vf_rn) { vf_run(7, pos, len, 0, NULL, 1); return; }
+    n = len > vf_rn - pos ? vf_rn - pos : len;
+    vf_run(7, pos, len, 0, NULL, 0);
+    VF_NCHECK(XSN(size)(&vf_T) == n && XSN(str)(&vf_T)[n] == 0, "substr: min(len, size - idx) characters, terminated");
+    for (i = 0; i < n; i++) VF_NCHECK(XSN(str)(&vf_T)[i] == vf_ref[pos + i], "substr: the characters of the requested range");
+    vf_nat_compare(&vf_S, "substr leaves the source alone");
+}
+void h_at(void)
+{
+    size_t pos = VF_IN_SIZE(pos);
+    vf_nat_string();
+    vf_run(8, pos, 0, 0, NULL, pos >= vf_rn);
+}
+struct vf_harness { const char * name; void (*fn)(void); };
+struct vf_harness vf_harnesses[] = {
+    { "h_erase", h_erase }, { "h_resize0", h_resize0 }, { "h_resize", h_resize }, { "h_prep_insert", h_prep_insert },
+    { "h_insert_str_n", h_insert_str_n }, { "h_insert_ch", h_insert_ch }, { "h_insert", h_insert }, { "h_substr", h_substr }, { "h_at", h_at },
+    { NULL, NULL } };
 #endif
